@@ -11,9 +11,11 @@ from .common import Report, finish
 
 PROPS = {
     "C06": "analysis.props.p_c06",
+    "C11": "analysis.props.p_c11",
     "C12": "analysis.props.p_c12",
     "C15": "analysis.props.p_c15",
     "C16": "analysis.props.p_c16",
+    "C18": "analysis.props.p_c18",
 }
 
 
